@@ -436,6 +436,7 @@ class List(list, base.Symbolic, pg_typing.CustomTyping):
         return None
       # Assigning MISSING_VALUE to an existing element removes it.
       if pg_typing.MISSING_VALUE == value:
+        self._check_size_before_removal()
         list.__delitem__(self, index)
         if isinstance(old_value, base.TopologyAware):
           old_value.sym_setparent(None)
@@ -446,6 +447,8 @@ class List(list, base.Symbolic, pg_typing.CustomTyping):
             self._value_spec.element if self._value_spec else None,
             old_value, pg_typing.MISSING_VALUE)
 
+    if should_insert or index >= len(self):
+      self._check_size_before_growth()
     new_value = self._formalized_value(index, value)
     if index < len(self):
       if should_insert:
@@ -507,6 +510,21 @@ class List(list, base.Symbolic, pg_typing.CustomTyping):
 
   def _parse_slice(self, index: slice) -> Tuple[int, int, int]:
     return index.indices(len(self))
+
+  def _check_size_before_removal(self) -> None:
+    """Raises if removing one element would go below the min size of the spec."""
+    if self._value_spec is not None and len(self) <= self._value_spec.min_size:
+      raise ValueError(
+          self._error_message(
+              f'Cannot remove item: min size ({self._value_spec.min_size}) '
+              f'is reached.'))
+
+  def _check_size_before_growth(self) -> None:
+    """Raises if adding one element would exceed the max size of the spec."""
+    if (self._value_spec is not None and self.max_size is not None
+        and len(self) >= self.max_size):
+      raise ValueError(
+          self._error_message(f'List reached its max size {self.max_size}.'))
 
   def _check_size_after_slice_update(self, new_size: int) -> None:
     """Raises if a slice update would violate the size bounds of the spec."""
@@ -647,6 +665,7 @@ class List(list, base.Symbolic, pg_typing.CustomTyping):
 
     if index < 0:
       index += len(self)
+    self._check_size_before_removal()
     old_value = self.sym_getattr(index)
     super().__delitem__(index)
     # Detach old value from object tree.
